@@ -157,6 +157,11 @@ class C07(Prop):
             ports = self.rig.free_ports(nports)
         log = self.rig.log
         log.clear()
+        if not hasattr(self, "keep"):
+            from ..monitors.keepsake import Keep
+
+            self.keep = Keep(limit=200)
+        self.keep.verify(acc, "delivered-device-changed-later", "the time a later bridge had handled a later history")
         # callback raise schedule
         sched = ("never", "every", "first", "tags")[(i // 4) % 4]
         k = r.randrange(1, 6)
@@ -320,6 +325,8 @@ class C07(Prop):
             elif seen != len(probe):
                 acc.violation("deliveries-stopped:second-event-loop", f"the bridge object of this history, started again in a new event loop of the same process, "
                               f"delivered {seen} of {len(probe)} valid broadcasts", {"ports": ports, "delivered": str(seen)})
+        for t_, devs_ in list(devices.items())[:6]:
+            self.keep.add(devs_[0], f"device object delivered under id {t_} in history {i}")
         acc.ev(n_dg)
         acc.count("histories")
         acc.count(f"ports_{nports}")
